@@ -94,6 +94,9 @@ StateFails(e) ==
               /\ Cardinality(DOMAIN s.hindex) = Len(s.hnames)
               /\ \A i \in 2..Len(s.hprio) : s.hprio[i \div 2] <= s.hprio[i])
     \cup Fail("C20_Converges", e.ev # "DrainFailed")
+    \* objects in the informer cache are shared by all reconciler workers; a Job built from a JobConfig the controller wrote into
+    \* can carry another worker's schedule time (the harness cannot interleave inside a segment, so it checks the enabling condition)
+    \cup Fail("C02_SharedCacheIntact", s.mutated = <<>>)
 
 \* a Job that appears was requested for exactly that JobConfig and time
 StepFails(p, s, rq) ==
@@ -130,7 +133,7 @@ Next ==
                  \cup (IF reset \/ l = 1 THEN {} ELSE StepFails(p, s, ar))
                  \cup (IF work THEN UNION {pf[n] : n \in NS} ELSE {})
                  \cup (IF boot THEN UNION {BootFails(s, n) : n \in NS} ELSE {})
-                 \cup (IF e.ev = "Final" THEN FinalFails(s, rq, sk, je) ELSE {})
+                 \cup (IF e.ev \in {"Final", "DrainFailed"} THEN FinalFails(s, rq, sk, je) \ (IF e.ev = "Final" THEN {} ELSE {"C20_Quiescent"}) ELSE {})
        IN /\ dues' = du
           /\ dirty' = IF reset \/ boot \/ work THEN {}
                       ELSE dirty \cup {n \in NS : n \in DOMAIN p.cache /\ SchedKey(p.cache[n]) # SchedKey(s.cache[n])}
